@@ -7,8 +7,8 @@ A1 = ('Assumes A1 (f64 arithmetic exact on the extended reals: no rounding, no o
       'DESIGN 3.2 (vx/core.py), Verus+Z3, and the assumed std/dependency contracts listed in evidence.coverage.trusted_base. ')
 
 BOUNDED = (' In addition every run executes a BOUNDED STAND-IN (./bin/rx bounded <id>, rx/src/bounded*.rs): executable forms of the contracts run on the real compiled code over a fixed finite input family - '
-           'labelled bounded in the evidence (coverage.bounded_stand_in) and NEVER counted as proved. It supplies a failing input for a failed obligation, covers callees whose contracts are only assumed, and is the only verdict '
-           'when a changed tree leaves the verifier dialect (deductive route UNDECIDED: lost anchor / tool limit).')
+           'labelled bounded in the evidence (coverage.bounded_stand_in) and NEVER counted as proved. It supplies a failing input for a failed obligation, audits the callee contracts that the proof only assumes (rx/src/audit.rs: executable forms of those clauses on random messages), and is the only verdict '
+           'when a changed tree leaves the verifier dialect (deductive route UNDECIDED: lost anchor / tool limit). A failed obligation is re-checked with three other solver seeds before it is reported, and a failure in a unit whose extracted text and context are identical to the baseline proved on the pinned tree (baseline/<id>.json) is reported as UNDECIDED (unstable proof), never as a violation.')
 
 CLAIMS = {
     'C02': dict(
